@@ -87,6 +87,14 @@ func oracleScan(src string, toks []*html.Token) (c17 string, c01 string) {
 		}
 		p = posAfter(p, t.Value)
 		if c17 == "" && t.Kind == html.TokenKindTag && t.Tag != nil {
+			seen := map[string]bool{}
+			for _, a := range t.Tag.Attrs {
+				// duplicate attributes (the same name as written) are rejected with an error, never kept twice
+				if seen[a.Name] && c17 == "" {
+					c17 = fmt.Sprintf("token %d %q was accepted with the attribute %q twice", i, t.Value, a.Name)
+				}
+				seen[a.Name] = true
+			}
 			for _, a := range t.Tag.Attrs {
 				if a.Name != "" {
 					if s, ok := spanText(t.Start, t.Value, a.NameStart, a.NameEnd); !ok || s != a.Name {
